@@ -135,8 +135,21 @@ variable (c : SaCore)
   unfold handOver; apply Keeps.modify; intro s h; simp_all [ConstI, CoreConst, XSa.setKids]
 @[keepsConst] theorem checkInStates_c (l) : Keeps (ConstI c) (checkInStates l) := by unfold checkInStates; keeps_c
 @[keepsConst] theorem assertState_c (l) : Keeps (ConstI c) (assertState l) := by unfold assertState; keeps_c
-@[keepsConst] theorem installChild_c (k) : Keeps (ConstI c) (installChild k) := by unfold installChild; keeps_c
-@[keepsConst] theorem uninstallChild_c (k) : Keeps (ConstI c) (uninstallChild k) := by unfold uninstallChild; keeps_c
+theorem trackChild_me (k : Child) (s : HSt) :
+    (trackChild k s).2.me = s.me ∨ (trackChild k s).2.me = s.me.setKids (s.me.ext.kids ++ [k]) := by
+  unfold trackChild
+  simp only
+  split
+  · exact Or.inl rfl
+  · split
+    · exact Or.inl rfl
+    · exact Or.inr rfl
+@[keepsConst] theorem trackChild_c (k) : Keeps (ConstI c) (trackChild k) := by
+  constructor; intro s h
+  rcases trackChild_me k s with h1 | h1 <;> (simp only [ConstI, h1]; simpa [ConstI, CoreConst, XSa.setKids] using h)
+@[keepsConst] theorem untrackChild_c (k) : Keeps (ConstI c) (untrackChild k) := by
+  constructor; intro s h; unfold untrackChild
+  simpa [ConstI, CoreConst, XSa.setKids] using h
 @[keepsConst] theorem getSlot_c (sl) : Keeps (ConstI c) (getSlot sl) := by
   cases sl
   · simp only [getSlot]; keeps_c
@@ -266,8 +279,8 @@ end const
 
 /-! ### from `Keeps` to the shell's vocabulary -/
 
-theorem runH_me (h : HM HRes) (me : XSa) (succ : Option XSa) (tape : Tape) :
-    (runH h me succ tape).me = (h { me := me, succ := succ, tape := tape }).2.me := by
+theorem runH_me (h : HM HRes) (me : XSa) (succ : Option XSa) (tape : Tape) (sad : List (Bytes × Nat × Bytes)) :
+    (runH h me succ tape sad).me = (h { me := me, succ := succ, tape := tape, sad := sad }).2.me := by
   unfold runH
   split <;> simp_all
   all_goals (rename_i heq; rw [heq])
